@@ -220,7 +220,10 @@ fn sites(
 }
 
 pub fn emit(case: &Value) -> Value {
+    // "ty": Rust SOURCE text of the type (a 1-tuple is `(T,)`); "printed": what type_to_string prints for it
+    // (`(T)`), used where the tool starts from a printed string (EventInfo.payload_type, direct parse)
     let ty = case["ty"].as_str().unwrap();
+    let printed = case.get("printed").and_then(|p| p.as_str()).unwrap_or(ty);
     let mappings: Option<HashMap<String, String>> = case.get("mappings").and_then(|m| m.as_object()).map(|m| {
         m.iter().map(|(k, v)| (k.clone(), v.as_str().unwrap().to_string())).collect()
     });
@@ -249,7 +252,7 @@ pub fn emit(case: &Value) -> Value {
     let structure = json!({
         "param": canon(&c.parameters[0].type_structure), "return": canon(&c.return_type_structure),
         "channel": canon(&c.channels[0].message_type_structure), "field": canon(&p.strukt.fields[0].type_structure),
-        "direct": canon(&resolver.parse_type_structure(ty)),
+        "direct": canon(&resolver.parse_type_structure(printed)),
     });
     let mut cfg_none = GenerateConfig::default();
     cfg_none.type_mappings = mappings.clone();
@@ -258,8 +261,8 @@ pub fn emit(case: &Value) -> Value {
     json!({
         "id": case["id"], "tts": tts, "structure": structure,
         "is_optional": {"param": c.parameters[0].is_optional, "field": p.strukt.fields[0].is_optional},
-        "none": sites("none", &p, ty, &cfg_none, &analyzer),
-        "zod": sites("zod", &p, ty, &cfg_zod, &analyzer),
+        "none": sites("none", &p, printed, &cfg_none, &analyzer),
+        "zod": sites("zod", &p, printed, &cfg_zod, &analyzer),
     })
 }
 
